@@ -800,7 +800,7 @@ def known_for_any(prop_id):
 
 @prop("C01")
 def c01(tier, seed, **kw):
-    res = instr_check("C01", tier, seed)
+    res = instr_check("C01", tier, seed, extra_cases=instr_gen.generate_edge_sweep(harnesses()["release"], seed + 1))
     # the set of implemented forms does not shrink: every pinned form still has a non-stub body
     import json
     pinned = json.load(open(os.path.join(ROOT, "gen_cases/codes.json")))
@@ -833,7 +833,7 @@ def c04(tier, seed, **kw):
 
 @prop("C06")
 def c06(tier, seed, **kw):
-    return instr_check("C06", tier, seed)
+    return instr_check("C06", tier, seed, extra_cases=instr_gen.generate_edge_sweep(harnesses()["release"], seed + 6))
 
 
 @prop("C05")
@@ -884,6 +884,11 @@ def c19(tier, seed, **kw):
     res = instr_check("C19", tier, seed, with_hw=False, extra_cases=instr_gen.generate_edge_sweep(harnesses()["release"], seed + 19))
     n = 4000 if tier == "quick" else 200000
     lines = gen_fuzz_cases(seed, n)
+    # histories: a failing step after unbalanced returns / hooks / limits goes through the error decoration
+    # (trace, call stack and state rendering) - programs of C18 and C11 stepped to their end
+    lcf, _ = gen_cf_programs(seed + 190, 300 if tier == "quick" else 6000)
+    lex, _ = gen_exec_histories(seed + 191, 300 if tier == "quick" else 6000)
+    lines = lines + lcf + lex
     ncases, bad = tie_run(lines, "C19-fuzz")
     if bad:
         prof, cid, first = bad[0]
